@@ -25,16 +25,20 @@ def _b(x) -> bytes:
 class Exchange:
     """One request / response pair through the real stack, client speaking `vin`, server speaking `vout`."""
 
-    def __init__(self, vin: str, vout: str, *, stream_req=False, stream_resp=False, options=None):
+    def __init__(self, vin: str, vout: str, *, stream_req=False, stream_resp=False, options=None, transparent=False):
         from mitmproxy.proxy.layers import http
         from vf import hpeers, sansio
 
         self.vin, self.vout = vin, vout
         self.stream_req, self.stream_resp = stream_req, stream_resp
         opts = sansio.make_options(http2_ping_keepalive=0, **(options or {}))
-        self.ctx = sansio.make_context(opts, transport="udp" if vin == "h3" else "tcp")
+        self.ctx = sansio.make_context(opts, transport="udp" if vin == "h3" else "tcp",
+                                       mode="transparent" if transparent else "regular")
         self.ctx.client.alpn = {"h1": b"http/1.1", "h2": b"h2", "h3": b"h3"}[vin]
-        self.top = http.HttpLayer(self.ctx, http.HTTPMode.regular)
+        if transparent:
+            # the connection was redirected: the destination is an address, the name is only in the request
+            self.ctx.server.address = ("192.0.2.10", 80)
+        self.top = http.HttpLayer(self.ctx, http.HTTPMode.transparent if transparent else http.HTTPMode.regular)
         self.d = sansio.Driver(self.ctx, self.top, on_hook=self._on_hook)
         self.hp = hpeers
         self.cp = None if vin == "h1" else (hpeers.h2_peer(True) if vin == "h2" else hpeers.H3Peer(True))
@@ -355,7 +359,9 @@ def project(I: Interner, *, start=(), fields=(), body=b"", trailers=(), request=
 
 REQ_CLASSES = ("plain", "cookies", "upper", "connhdr", "te_trailers", "empty_value", "crlf_value", "lf_value", "nul_value",
                "ws_value", "space_path", "space_method", "crlf_path", "dup_pseudo", "missing_path", "host_mismatch",
-               "host_only", "nocl", "cl_short", "cl_long", "cl_short_mid")
+               "host_only", "nocl", "cl_short", "cl_long", "cl_short_mid", "transparent")
+# "transparent": a plain request, but HttpLayer runs in transparent mode and the server address (192.0.2.10) is not the
+# request's authority (example.com)
 RESP_CLASSES = ("plain", "setcookies", "upper", "connhdr", "crlf_value", "lf_value", "nul_value", "nocl", "cl_short",
                 "cl_long", "status204_body", "dup_status", "bad_status")
 BODIES = ("none", "data", "trailers", "trailers_only")  # trailers_only: empty body + trailers (e.g. a gRPC reply without messages)
@@ -414,7 +420,7 @@ def build(direction: str, frm: str, cls: str, body: str, rnd=None):
         chunks = [b"he", b"l", b"lo"]  # the declared length (2) is reached after the first of three DATA frames
     total = sum(map(len, chunks))
     extra: list = []
-    if cls == "plain":
+    if cls in ("plain", "transparent"):
         extra = [(b"x-a", b"1"), (b"x-b", b"2")]
     elif cls == "cookies":
         extra = [(b"x-a", b"1"), (b"cookie", b"a=1"), (b"cookie", b"b=2; c=3")]
@@ -502,7 +508,8 @@ def run_case(case: dict) -> list[dict]:
     direction, frm, to, cls, body, mode = (case[k] for k in ("dir", "from", "to", "cls", "body", "mode"))
     vin, vout = (frm, to) if direction == "req" else (to, frm)
     streamed = mode == "streamed"
-    x = Exchange(vin, vout, stream_req=streamed and direction == "req", stream_resp=streamed and direction == "resp")
+    x = Exchange(vin, vout, stream_req=streamed and direction == "req", stream_resp=streamed and direction == "resp",
+                 transparent=cls == "transparent")
     I = Interner()
     x.start()
     rec = {"k": "xlate", "dir": direction, "from": frm, "to": to, "cls": cls, "mode": mode, "body": body,
@@ -626,7 +633,8 @@ class Check(core.PropertyCheck):
         "keep-alive, proxy-connection, transfer-encoding, upgrade, te, trailer, content-length) left out, cookie lines "
         "split at '; ', strings interned",
         "which classes are legitimate messages of their version (valid) is the harness's table (props/C06.py INVALID_*)",
-        "hooks and connection attempts complete at once; regular proxy mode; options at their defaults",
+        "hooks and connection attempts complete at once; regular proxy mode (class 'transparent': transparent mode with a "
+        "server address that differs from the authority); options at their defaults",
     )
     PROCS = 4
 
